@@ -79,6 +79,7 @@ def configs(draw, reps):
         "minimize": draw(st.booleans()),
         "init": draw(st.sampled_from(["standard", "full", "grow", "pigrow", "ramped", "inject", "inject"])),
         "inject_n": draw(st.integers(1, 6)),
+        "random_omitted": draw(st.sampled_from([False, False, True])),
         "gp_step": draw(st.sampled_from(["default", "crossover-heavy"])),
         "envs": [
             {"hashseed": draw(st.sampled_from([0, 1, 4242, "random"])), "dummies": draw(st.sampled_from([0, 1, 7, 50, 333])), "imports": draw(st.permutations(MODULES))[: draw(st.integers(0, len(MODULES)))]}
